@@ -108,3 +108,28 @@ pub fn replay(ctx: &CheckCtx, sub: &str, case: &Value) -> Result<Option<Violatio
     let inner = sub.strip_prefix("ship.").unwrap_or(sub);
     spawn(ctx, Some((inner, case))).map(|r| r.violation.map(|x| x.0))
 }
+
+
+/// A process-wide `tracing` subscriber that enables every level and discards everything. `tracing` evaluates the
+/// arguments of `trace!` / `debug!` only for enabled call sites, so code that (by accident) does work inside a log macro
+/// behaves differently as soon as an application turns verbose logging on. The second-profile child runs with it
+/// installed; the parent (ordinary profile) without.
+struct AllLevels;
+
+impl tracing::Subscriber for AllLevels {
+    fn enabled(&self, _: &tracing::Metadata<'_>) -> bool {
+        true
+    }
+    fn new_span(&self, _: &tracing::span::Attributes<'_>) -> tracing::span::Id {
+        tracing::span::Id::from_u64(1)
+    }
+    fn record(&self, _: &tracing::span::Id, _: &tracing::span::Record<'_>) {}
+    fn record_follows_from(&self, _: &tracing::span::Id, _: &tracing::span::Id) {}
+    fn event(&self, _: &tracing::Event<'_>) {}
+    fn enter(&self, _: &tracing::span::Id) {}
+    fn exit(&self, _: &tracing::span::Id) {}
+}
+
+pub fn install_all_levels_subscriber() {
+    let _ = tracing::subscriber::set_global_default(AllLevels);
+}
